@@ -2,12 +2,14 @@
 //!
 //! Direct oracle on `Beatmap::convert` outputs (taiko / catch / mania under every key mod), plus
 //! correspondence lines for the mania column arithmetic and `target_columns`
-//! (`lean/RosuModel/Model/Convert.lean`): TCOL, COL, C2PSET.
+//! (`lean/RosuModel/Model/Convert.lean`): TCOL, COL, C2PSET, and for the slider → hits part of the
+//! taiko converter (`lean/RosuModel/Model/TaikoTicks.lean`, replayed with IEEE doubles): TTICKS.
 
 use std::{cmp::Ordering, collections::BTreeSet};
 
 use rosu_pp::{
     model::{
+        control_point::{DifficultyPoint, TimingPoint},
         hit_object::{HitObject, HitObjectKind},
         mode::GameMode,
         mods::rosu_mods::GameModsIntermode,
@@ -18,7 +20,7 @@ use rosu_pp::{
 use crate::{
     c06::csv,
     common::{decode, guarded, hash64, resource_maps, LazerTag, ModsSpec, Run},
-    mapgen::{random_map, GenCfg, MapSpec, ObjKind},
+    mapgen::{random_map, GenCfg, MapSpec, ObjKind, ObjSpec, TimingSpec},
     rng::Rng,
 };
 
@@ -203,6 +205,125 @@ fn check_mania(src: &Beatmap, out: &Beatmap, keys: Option<u32>) -> Result<(), St
     Ok(())
 }
 
+/// `f64::total_cmp` key (the integer the model compares).
+fn total_key(t: f64) -> i64 {
+    let b = t.to_bits() as i64;
+    b ^ ((((b >> 63) as u64) >> 1) as i64)
+}
+
+fn join_or_dash(v: Vec<String>, sep: &str) -> String {
+    if v.is_empty() {
+        "-".to_owned()
+    } else {
+        v.join(sep)
+    }
+}
+
+/// TTICKS line: everything the slider arm of `taiko::convert` reads of the source map (request)
+/// and what it did (observed): which sliders are still sliders, and the (time, sound) of every
+/// generated hit. Source objects carry a unique tag x >= 1, generated hits sit at x = 0.
+fn tticks_line(src: &Beatmap, out: &Beatmap) -> Option<(String, String, usize, usize)> {
+    let mut sliders = Vec::new();
+    for (i, o) in src.hit_objects.iter().enumerate() {
+        if let HitObjectKind::Slider(sl) = &o.kind {
+            sliders.push(format!(
+                "{}:{}:{}:{}:{}:{}",
+                o.pos.x as i64,
+                o.start_time.to_bits(),
+                sl.expected_dist.unwrap_or(0.0).to_bits(),
+                sl.span_count(),
+                u8::from(src.hit_sounds[i]),
+                join_or_dash(sl.node_sounds.iter().map(|s| u8::from(*s).to_string()).collect(), "/")
+            ));
+        }
+    }
+    if sliders.is_empty() {
+        return None;
+    }
+    let tps = join_or_dash(src.timing_points.iter().map(|p| format!("{}:{}", p.time.to_bits(), p.beat_len.to_bits())).collect(), ";");
+    let dps = join_or_dash(
+        src.difficulty_points.iter().map(|p| format!("{}:{}", p.time.to_bits(), p.slider_velocity.to_bits())).collect(),
+        ";",
+    );
+    let req = format!(
+        "TTICKS {} {} {} {} {} {tps} {dps} {}",
+        src.version.max(0),
+        src.slider_multiplier.to_bits(),
+        src.slider_tick_rate.to_bits(),
+        TimingPoint::DEFAULT_BEAT_LEN.to_bits(),
+        DifficultyPoint::DEFAULT_SLIDER_VELOCITY.to_bits(),
+        sliders.join(";")
+    );
+    let mut kept: Vec<i64> = out.hit_objects.iter().filter(|h| h.is_slider()).map(|h| h.pos.x as i64).collect();
+    kept.sort_unstable();
+    let mut hits: Vec<(i64, u8)> = out
+        .hit_objects
+        .iter()
+        .zip(&out.hit_sounds)
+        .filter(|(h, _)| h.pos.x == 0.0 && h.is_circle())
+        .map(|(h, s)| (total_key(h.start_time), u8::from(*s)))
+        .collect();
+    hits.sort_unstable();
+    let n_hits = hits.len();
+    let n_kept = kept.len();
+    let obs = format!(
+        "{}|{}",
+        join_or_dash(kept.iter().map(i64::to_string).collect(), ";"),
+        join_or_dash(hits.iter().map(|(t, s)| format!("{t}:{s}")).collect(), ";")
+    );
+    Some((req, obs, sliders.len() - n_kept, n_hits))
+}
+
+/// One-slider maps that sweep the parameters of `should_convert_slider_to_taiko_hits` and of the
+/// tick loop: length, repeats, slider velocity, beat length, tick rate, slider multiplier,
+/// format version below / from 8, start time.
+fn tick_spec(rng: &mut Rng) -> MapSpec {
+    let mut m = MapSpec::default();
+    m.version = *rng.pick(&[3, 7, 8, 14, 128]);
+    m.slider_multiplier = *rng.pick(&[0.4, 0.75, 1.0, 1.4, 1.7, 2.2, 3.6]);
+    m.slider_tick_rate = *rng.pick(&[0.5, 1.0, 1.0, 2.0, 3.0, 4.0, 8.0, 1.5]);
+    m.timing[0].beat_len = *rng.pick(&[6.0, 100.0, 250.0, 300.0, 333.33, 375.5, 500.0, 1000.0, 2400.0, 60000.0]);
+    m.timing[0].time = *rng.pick(&[0.0, 0.0, -2000.0, 500.0]);
+    let start = *rng.pick(&[0.0, 1.0, 1000.0, 2500.0, 123456.0, -500.0, 2000000000.0, 777.0]);
+    if rng.chance(2, 3) {
+        m.timing.push(TimingSpec {
+            time: *rng.pick(&[0.0, start, start - 1.0, start + 1.0]),
+            beat_len: -(*rng.pick(&[10.0, 25.0, 50.0, 66.67, 100.0, 133.33, 200.0, 1000.0, 5000.0, 1.0])),
+            uninherited: false,
+            kiai: rng.chance(1, 2),
+        });
+    }
+    if rng.chance(1, 4) {
+        m.timing.push(TimingSpec {
+            time: start + *rng.pick(&[-10.0, 0.0, 10.0]),
+            beat_len: *rng.pick(&[200.0, 375.0, 750.0]),
+            uninherited: true,
+            kiai: false,
+        });
+    }
+    let n = rng.range(1, 3) as usize;
+    for i in 0..n {
+        let length = match rng.below(4) {
+            0 => rng.range(1, 40) as f64,
+            1 => rng.range(1, 600) as f64,
+            2 => rng.range(1, 4000) as f64 / 8.0,
+            _ => *rng.pick(&[0.0, 0.5, 17.5, 70.0, 140.0, 280.0, 1500.0, 20000.0]),
+        };
+        let slides = *rng.pick(&[1, 1, 1, 2, 2, 3, 4, 5, 9, 30, 100]);
+        m.objects.push(ObjSpec {
+            x: i as i32 + 1,
+            y: 100,
+            time: start + (i as f64) * *rng.pick(&[0.0, 50.0, 700.0, 5000.0]),
+            sound: *rng.pick(&[0u8, 2, 4, 8, 14]),
+            kind: ObjKind::Slider { curve: 'L', points: vec![(300, 100)], slides, length },
+        });
+    }
+    if rng.chance(1, 3) {
+        m.objects.push(ObjSpec { x: 9, y: 50, time: start + 300.0, sound: 2, kind: ObjKind::Circle });
+    }
+    m
+}
+
 fn gen_spec(rng: &mut Rng, ci: usize, thorough: bool) -> MapSpec {
     let mut cfg = GenCfg::small(0);
     cfg.weights = *rng.pick(&[[5, 3, 2, 0], [1, 0, 0, 0], [0, 1, 0, 0], [0, 0, 1, 0], [2, 6, 1, 0], [8, 1, 0, 0], [3, 3, 1, 1], [6, 2, 1, 0], [4, 5, 2, 0]]);
@@ -271,6 +392,24 @@ fn check_map(run: &mut Run, id: &str, src: &Beatmap, repro: &str, mods: &[(Strin
         run.count_n("taiko:objects-out", out.hit_objects.len() as u64);
         run.count_n("taiko:generated-hits", out.hit_objects.iter().filter(|h| h.pos.x == 0.0).count() as u64);
         run.count_n("taiko:effect-points-added", (out.effect_points.len() as i64 - src.effect_points.len() as i64).max(0) as u64);
+        // slider arithmetic: decision + tick loop + edge sounds vs the f64 replay of the model
+        if let Some((req, obs, n_conv, n_hits)) = tticks_line(src, &out) {
+            run.count_n("taiko:sliders-converted", n_conv as u64);
+            if n_conv > 0 {
+                run.count(&format!(
+                    "taiko:hits-per-converted-slider:{}",
+                    match n_hits / n_conv {
+                        0 => "0",
+                        1 => "1",
+                        2..=4 => "2-4",
+                        5..=16 => "5-16",
+                        _ => ">16",
+                    }
+                ));
+            }
+            run.repro.insert(format!("{id}/ticks"), repro.to_owned());
+            run.line(&format!("{id}/ticks"), req, obs);
+        }
         check_taiko(src, &out)
     }) {
         Ok(()) => {}
@@ -390,6 +529,41 @@ pub fn run(tier: &str, seed: u64, only: Option<&str>) -> Run {
         if ci % 70 == 31 {
             run.sample(format!("{id}: v{} cs={} od={} objects={}", spec.version, spec.cs, spec.od, spec.kinds()));
         }
+    }
+    // one-slider maps sweeping the slider arithmetic (TTICKS lines + the taiko oracle)
+    let n_ticks = if thorough { 40000 } else { 3000 };
+    for ci in 0..n_ticks {
+        let id = format!("tick-{ci}");
+        if only.is_some_and(|o| o != id && !o.starts_with(&format!("{id}/"))) {
+            continue;
+        }
+        let mut rng = Rng::new(seed ^ hash64(&id));
+        let spec = tick_spec(&mut rng);
+        let text = spec.render();
+        let mut src = match decode(&text) {
+            Ok(m) => m,
+            Err(e) => {
+                run.fail("oracle:decode", "", &id, e, text);
+                continue;
+            }
+        };
+        // edge sounds: every third map gets explicit node sounds of length 0..=4 (exercises the
+        // `.get(i)` fallback and the `% edge_sound_count` cycle)
+        let mut note = String::new();
+        if ci % 3 == 0 {
+            for h in src.hit_objects.iter_mut() {
+                if let HitObjectKind::Slider(sl) = &mut h.kind {
+                    let n = rng.below(5) as usize;
+                    let v: Vec<_> = (0..n).map(|k| ((k * 2 + 2) as u8 & 14).into()).collect();
+                    sl.node_sounds = v.into_boxed_slice();
+                    note = format!(" (node_sounds of the sliders set to {n} distinct entries 2,4,6,8 after decoding)");
+                }
+            }
+        }
+        run.count(&format!("ticks:version:{}", if spec.version < 8 { "<8" } else { ">=8" }));
+        run.eval((!src.hit_objects.is_empty()).then_some(text.as_str()));
+        let repro = format!("{text}{note}");
+        check_map(&mut run, &id, &src, &repro, &mods, false, &mut rng);
     }
     // the ranked osu!standard resource map (and truncations of it)
     for (i, (mode, text)) in resource_maps().into_iter().enumerate() {
